@@ -137,6 +137,7 @@ func (cache *MemoryCache[K, V]) Set(key K, value V, ttlSec float64) error {
 	go func() {
 		cache.clock.Sleep(ttlDuration)
 		clearKey(cache, key)
+		verifhook.Point("cache.sleeper.done", "key", key)
 	}()
 	return nil
 }
